@@ -536,6 +536,8 @@ type Monitor struct {
 	Havocs        []string // extra ghost locations havoc'd at acquire, as expression texts over "this"
 	Invs          []*Clause
 	Props         []string
+	Cond          string // field holding the sync.Cond tied to the lock
+	Monotone      []string // guarded boolean fields that only ever go false -> true (rely condition on other threads)
 }
 
 type GhostDecl struct {
@@ -593,7 +595,7 @@ var itemKeywords = map[string]bool{"func": true, "iface": true, "impl": true, "m
 	"spec": true, "axiom": true, "lemma": true, "immutable": true, "extern": true, "volatile": true}
 var clauseKeywords = map[string]bool{"facet": true, "requires": true, "ensures": true, "modifies": true, "panics-when": true,
 	"inline": true, "trusted": true, "loop": true, "param": true, "arith": true, "invariant": true, "implements": true,
-	"guards": true, "havocs": true, "pure": true, "names": true, "results": true, "opt": true, "safety": true, "attr": true}
+	"guards": true, "havocs": true, "pure": true, "names": true, "results": true, "opt": true, "safety": true, "attr": true, "cond": true, "monotone": true}
 
 // logical lines: a line whose first word is a keyword starts a new logical line; other lines continue the previous.
 func logicalLines(raw []string) []string {
@@ -747,6 +749,18 @@ func (sp *Specs) parseFile(path, pkgName string, lines []string) error {
 			for _, g := range strings.Split(r, ",") {
 				curMon.Guards = append(curMon.Guards, strings.TrimSpace(g))
 			}
+		case "monotone":
+			if curMon == nil {
+				return fail(ln, fmt.Errorf("monotone outside monitor"))
+			}
+			for _, g := range strings.Split(r, ",") {
+				curMon.Monotone = append(curMon.Monotone, strings.TrimSpace(g))
+			}
+		case "cond":
+			if curMon == nil {
+				return fail(ln, fmt.Errorf("cond outside monitor"))
+			}
+			curMon.Cond = strings.TrimSpace(r)
 		case "havocs":
 			if curMon == nil {
 				return fail(ln, fmt.Errorf("havocs outside monitor"))
